@@ -8,7 +8,7 @@ import Strophe.Model.StanzaRead
 namespace Strophe.Drv.Stz
 open Strophe Strophe.Stanza Strophe.Spec.Xml
 
-abbrev Vars := List (Option Tree)
+abbrev Vars := Stanza.Store
 
 def nvars : Nat := 64
 def initVars : Vars := List.replicate nvars none
@@ -29,27 +29,6 @@ def parseVar (tok : String) : Option Nat :=
   match parseTarget tok with
   | some (v, []) => some v
   | _ => none
-
-/-- attribute table a child of this node sees as `stanza->parent->attributes` -/
-def attrsOf : Tree → Option HashTab
-  | .tag _ a _ => a
-  | _ => none
-
-/-- follow a path; returns the node and the rendering context of that node -/
-def walk : Tree → List Nat → Option (Option HashTab) → Option (Tree × Option (Option HashTab))
-  | t, [], par => some (t, par)
-  | t, i :: rest, _ =>
-    match (kids t)[i]? with
-    | some k => walk k rest (some (attrsOf t))
-    | none => none
-
-/-- apply `f` to the node at the path (the path is known to resolve) -/
-def modifyAt (f : Tree → Tree) : Tree → List Nat → Tree
-  | t, [] => f t
-  | t, i :: rest =>
-    match (kids t)[i]? with
-    | some k => setKids t ((kids t).set i (modifyAt f k rest))
-    | none => t
 
 inductive Res where
   | ok (node : Tree) (par : Option (Option HashTab)) (root : Nat) (path : List Nat)
